@@ -8,6 +8,11 @@ Close Scope Q_scope.
 Close Scope Z_scope.
 
 (* ------------------------------------------------------------------ sets of node names *)
+Lemma NoDup_snoc : forall (x : Z) l, NoDup l -> ~ In x l -> NoDup (l ++ [x]).
+Proof.
+  intros x l H Hx. apply (Permutation_NoDup (Permutation_cons_append l x)). constructor; assumption.
+Qed.
+
 Lemma zadd_In : forall x l y, In y (zadd x l) <-> In y l \/ y = x.
 Proof.
   intros x l y. unfold zadd. destruct (zmem x l) eqn:E.
@@ -18,9 +23,7 @@ Qed.
 Lemma zadd_NoDup : forall x l, NoDup l -> NoDup (zadd x l).
 Proof.
   intros x l H. unfold zadd. destruct (zmem x l) eqn:E; [exact H|].
-  apply zmem_false in E. apply NoDup_app_iff' with (l2 := [x]).
-  split; [exact H|]. split; [constructor; [intros []|constructor]|].
-  intros y Hy [Hx|[]]. subst. contradiction.
+  apply zmem_false in E. apply NoDup_snoc; assumption.
 Qed.
 
 Lemma zadd_fresh : forall x l, ~ In x l -> zadd x l = l ++ [x].
@@ -49,7 +52,7 @@ Lemma zins_In : forall x l y, In y (zins x l) <-> y = x \/ In y l.
 Proof.
   intros x l y. induction l as [|z l IH]; cbn [zins].
   - cbn. split; [intros [H|[]]; auto | intros [H|[]]; auto].
-  - destruct (Z.ltb_spec x z); [cbn; split; [intros [H|H]; auto | intros [H|H]; auto]|].
+  - destruct (Z.ltb_spec x z) as [Hlt|Hge]; [cbn; split; [intros [H|H]; auto | intros [H|H]; auto]|].
     destruct (Z.eqb_spec x z) as [->|Hne].
     + cbn. split; [auto|]. intros [->|H]; auto.
     + cbn [In]. rewrite IH. split; [intros [H1|[H1|H1]]; auto | intros [H1|[H1|H1]]; auto].
@@ -71,8 +74,8 @@ Definition zsorted (l : list Z) : Prop := StronglySorted Z.lt l.
 Lemma zins_sorted : forall x l, zsorted l -> zsorted (zins x l).
 Proof.
   intros x l H. induction H as [|z l Hs IH Hz]; cbn [zins]; [repeat constructor|].
-  destruct (Z.ltb_spec x z).
-  - constructor; [constructor; assumption|]. constructor; [exact H|].
+  destruct (Z.ltb_spec x z) as [Hlt|Hge].
+  - constructor; [constructor; assumption|]. constructor; [exact Hlt|].
     rewrite Forall_forall in *. intros y Hy. specialize (Hz y Hy). lia.
   - destruct (Z.eqb_spec x z); [constructor; assumption|].
     constructor; [exact IH|]. rewrite Forall_forall in *. intros y Hy. apply zins_In in Hy.
@@ -143,14 +146,14 @@ Qed.
 Lemma ins_map_EN : forall x l, ins (EN x) (map EN l) = map EN (zins x l).
 Proof.
   intros x l. induction l as [|y l IH]; cbn [map ins zins]; [reflexivity|].
-  cbn [elem_ltb elem_eqb]. destruct (x <? y)%Z; [reflexivity|]. destruct (x =? y)%Z; [reflexivity|].
+  cbn [Kernel.elem_ltb Kernel.elem_eqb]. destruct (x <? y)%Z; [reflexivity|]. destruct (x =? y)%Z; [reflexivity|].
   cbn [map]. rewrite IH. reflexivity.
 Qed.
 
 Lemma del_map_EN : forall x l, del (EN x) (map EN l) = map EN (zdel x l).
 Proof.
   intros x l. induction l as [|y l IH]; cbn [map del zdel]; [reflexivity|].
-  cbn [elem_eqb]. destruct (x =? y)%Z; [reflexivity|]. cbn [map]. rewrite IH. reflexivity.
+  cbn [Kernel.elem_eqb]. destruct (x =? y)%Z; [reflexivity|]. cbn [map]. rewrite IH. reflexivity.
 Qed.
 
 (* ------------------------------------------------------------------ newNodeName *)
@@ -213,17 +216,25 @@ Proof.
   split; intros [A B]; split; auto.
 Qed.
 
+Lemma pick_adm : forall L i es ds j ds', pick L i es ds = Some (j, ds') ->
+  admissible i es j /\ In j (map (draw_at L) ds)
+  /\ (forall v, admissible i es v -> v <> j -> In v (map (draw_at L) ds) -> In v (map (draw_at L) ds')).
+Proof.
+  intros L i es ds j ds'. induction ds as [|k ds IH]; cbn [pick]; [discriminate|].
+  destruct (negb (zmem (draw_at L k) es) && negb (Z.eqb i (draw_at L k))) eqn:E.
+  - intros [= <- <-]. apply admissible_b in E. split; [exact E|]. split; [left; reflexivity|].
+    intros v Hv Hne [H|H]; [congruence|exact H].
+  - intro H. destruct (IH H) as [A [B C]]. split; [exact A|]. split; [right; exact B|].
+    intros v Hv Hne [Hk|Hin]; [|apply C; assumption].
+    exfalso. subst v. apply admissible_b in Hv. congruence.
+Qed.
+
 Lemma pick_spec : forall L i es ds j ds', L <> [] -> pick L i es ds = Some (j, ds') ->
   In j L /\ admissible i es j
   /\ (forall v, admissible i es v -> v <> j -> In v (map (draw_at L) ds) -> In v (map (draw_at L) ds')).
 Proof.
-  intros L i es ds j ds' HL. induction ds as [|k ds IH]; cbn [pick]; [discriminate|].
-  destruct (negb (zmem (draw_at L k) es) && negb (Z.eqb i (draw_at L k))) eqn:E.
-  - intros [= <- <-]. apply admissible_b in E. split; [apply draw_at_In, HL|]. split; [exact E|].
-    intros v Hv Hne [H|H]; [congruence|exact H].
-  - intro H. destruct (IH H) as [A [B C]]. split; [exact A|]. split; [exact B|].
-    intros v Hv Hne [Hk|Hin]; [|apply C; assumption].
-    exfalso. subst v. apply admissible_b in Hv. congruence.
+  intros L i es ds j ds' HL E. destruct (pick_adm L i es ds j ds' E) as [A [B C]].
+  split; [|split; assumption]. apply in_map_iff in B. destruct B as [k [<- _]]. apply draw_at_In, HL.
 Qed.
 
 Lemma pick_some : forall L i es ds, (exists v, admissible i es v /\ In v (map (draw_at L) ds)) ->
@@ -245,11 +256,11 @@ Proof.
   - destruct (pick L i es0 ds) as [[j ds1]|] eqn:E; [|discriminate]. intros H Hn Hi Hs.
     destruct (pick_spec L i es0 ds j ds1 HL E) as [HjL [[Hj1 Hj2] _]].
     destruct (IH L i (es0 ++ [j]) ds1 es ds' HL H) as [new [E1 [E2 [E3 [E4 E5]]]]].
-    + apply NoDup_app_iff' with (l2 := [j]). split; [exact Hn|]. split; [constructor; [intros []|constructor]|].
-      intros y Hy [->|[]]. contradiction.
+    + apply NoDup_snoc; assumption.
     + rewrite in_app_iff. cbn. intros [H1|[H1|[]]]; [contradiction|congruence].
     + intros y Hy. apply in_app_iff in Hy. destruct Hy as [Hy|[<-|[]]]; [apply Hs, Hy|exact HjL].
-    + exists (j :: new). rewrite E1, <- app_assoc. cbn. repeat split; try assumption. rewrite E2. reflexivity.
+    + subst es. rewrite <- app_assoc in *. cbn [app] in *. exists (j :: new).
+      split; [reflexivity|]. split; [cbn; rewrite E2; reflexivity|]. repeat split; assumption.
 Qed.
 
 (* the loop completes as soon as the ranks supplied select c distinct admissible nodes *)
@@ -263,18 +274,18 @@ Proof.
   destruct (pick_some L i es ds) as [j [ds1 E]].
   { exists v0. apply Hvs. rewrite Evs. left. reflexivity. }
   rewrite E.
-  assert (HL : L <> []).
-  { intro HL. destruct (Hvs v0) as [_ Hin]; [rewrite Evs; left; reflexivity|].
-    apply in_map_iff in Hin. destruct Hin as [k [_ Hk]]. clear - E Hk. destruct ds; [destruct Hk|discriminate E || idtac].
-    exact I. }
-  destruct (pick_spec L i es ds j ds1 HL E) as [_ [[Hj1 Hj2] Hrest]].
-  apply (IH L i (es ++ [j]) ds1 (remove Z.eq_dec j vs)).
-  - apply NoDup_remove_iff'. exact Hn.
-  - pose proof (remove_length_lt' Z.eq_dec vs j) as Hr. rewrite Evs in Hc. cbn [length] in Hc.
+  destruct (pick_adm L i es ds j ds1 E) as [[Hj1 Hj2] [_ Hrest]].
+  apply (IH L i (es ++ [j]) ds1 (zdiscard j vs)).
+  - apply zdiscard_NoDup, Hn.
+  - rewrite Evs in Hc. cbn [length] in Hc.
     destruct (in_dec Z.eq_dec j vs) as [Hin|Hnin].
-    + pose proof (remove_length_S Z.eq_dec vs j Hn Hin). rewrite Evs in H at 2. cbn [length] in H. lia.
-    + rewrite notin_remove by exact Hnin. rewrite Evs. cbn [length]. lia.
-  - intros v Hv. apply in_remove in Hv. destruct Hv as [Hv Hne]. destruct (Hvs v Hv) as [[A1 A2] B]. split.
+    + pose proof (zdiscard_length j vs Hn Hin) as Hl. rewrite Evs in Hl at 2. cbn [length] in Hl. lia.
+    + assert (El : length (zdiscard j vs) <= length vs /\ length vs <= length (zdiscard j vs)).
+      { clear - Hnin. unfold zdiscard. induction vs as [|y vs IHv]; [cbn; lia|]. cbn [filter].
+        destruct (Z.eqb_spec j y) as [->|Hy]; [exfalso; apply Hnin; left; reflexivity|].
+        cbn [negb length]. assert (~ In j vs) by (intro; apply Hnin; right; assumption). specialize (IHv H). lia. }
+      rewrite Evs in El at 2 3. cbn [length] in El. lia.
+  - intros v Hv. apply zdiscard_In in Hv. destruct Hv as [Hv Hne]. destruct (Hvs v Hv) as [[A1 A2] B]. split.
     + split; [|exact A2]. rewrite in_app_iff. cbn. intros [H|[H|[]]]; [contradiction|congruence].
     + apply Hrest; [split; assumption | exact Hne | exact B].
 Qed.
